@@ -59,6 +59,9 @@ CHECKS = {
  "C13": dict(level="model_checking", technique="controlled nondeterminism: every map range of lox rewritten (from the current tree) over an explorer-owned key order, all schedules with one deviating occurrence and all site-uniform policies executed; explicit-state BFS over directory states with the real binary",
    text="(a) The generator is run under every explored map-iteration schedule (default canonical order, then every single-occurrence deviation, then site-uniform reversals/rotations of one, two and all sites): generated files, report and diagnostics must be identical. (b) A breadth-first search over directory states (earlier generations of this or another grammar, deleted or swapped generated files) with the real binary invoked from three working directories: every run must leave exactly the bytes a fresh directory gets.",
    note="Trusted: the map-range rewriter (cmd/maprewrite) and hooks/verifmap.go. Libraries outside the repository are exercised by (b)'s separate processes, not explored. Bounds: one deviation per execution plus uniform policies; directory histories of depth 2 (quick) / 3 (thorough).", ref="DESIGN.md section C13, 2.6"),
+ "C18": dict(level="model_checking", technique="stateless model checking of the unmodified generated code compiled for real: cooperative scheduler with scheduling points at every loop iteration and function entry, all schedules up to a preemption bound (iterative context bounding), stateful search keyed on thread positions + hash of package-level variables; separate free-running -race pass",
+   text="Generated parsers and lexers of two grammars (with error recovery, modes and _onBounds) run as 2-3 threads under an explorer-owned scheduler: for every schedule within the preemption bound each thread's full observable trace equals its solo trace and the hash of every package-level variable of the generated files never changes; the same bodies run free under the race detector.",
+   note="On the unchanged tree nothing is shared, so every thread has one distinct outcome; the check earns its keep on seeded changes (a package-level scratch buffer is caught by all three oracles). Bounds: preemption bound 1 (quick) / 2 on short inputs (thorough).", ref="DESIGN.md section C18"),
 }
 
 NA_REASON = "check not built yet (work in progress; see DESIGN.md for the plan)"
